@@ -180,6 +180,24 @@ lazy_static! {
   static ref LUNAR_MONTH_CACHE: Mutex<HashMap<String, Vec<f64>>> = Mutex::new(HashMap::new());
 }
 
+/// verification hook: empty the lunar month memo so that the next query is answered cold
+#[cfg(feature = "verif-hooks")]
+pub fn verif_reset_lunar_month_cache() {
+  match LUNAR_MONTH_CACHE.lock() {
+    Ok(mut map) => map.clear(),
+    Err(e) => e.into_inner().clear(),
+  }
+}
+
+/// verification hook: number of memoized lunar months
+#[cfg(feature = "verif-hooks")]
+pub fn verif_lunar_month_cache_len() -> usize {
+  match LUNAR_MONTH_CACHE.lock() {
+    Ok(map) => map.len(),
+    Err(e) => e.into_inner().len(),
+  }
+}
+
 /// 农历月
 #[derive(Debug, Copy, Clone)]
 pub struct LunarMonth {
